@@ -329,6 +329,36 @@ fn run_type<T: Serial + Deserial + Gen + PartialEq>(name: &str, r: &mut Rng, n: 
     }
 }
 
+/// every type of the correspondence: `$m!(name, Type);`
+macro_rules! all_types {
+    ($m:ident) => {
+    $m!("u8", u8); $m!("u16", u16); $m!("u32", u32); $m!("u64", u64); $m!("u128", u128);
+    $m!("i8", i8); $m!("i16", i16); $m!("i32", i32); $m!("i64", i64); $m!("i128", i128);
+    $m!("bool", bool);
+    $m!("pair_u8_u16", (u8, u16)); $m!("triple_u64_bool_u32", (u64, bool, u32));
+    $m!("opt_u32", Option<u32>); $m!("opt_opt_u8", Option<Option<u8>>); $m!("opt_vec_u16", Option<Vec<u16>>);
+    $m!("vec_u8", Vec<u8>); $m!("vec_u16", Vec<u16>); $m!("vec_bool", Vec<bool>); $m!("vec_u128", Vec<u128>);
+    $m!("vec_vec_u8", Vec<Vec<u8>>); $m!("vec_pair_u8_u32", Vec<(u8, u32)>); $m!("vec_opt_u8", Vec<Option<u8>>);
+    $m!("string", String); $m!("vec_string", Vec<String>);
+    $m!("set_u8", BTreeSet<u8>); $m!("set_u32", BTreeSet<u32>); $m!("map_u8_u16", BTreeMap<u8, u16>); $m!("map_u64_vec_u8", BTreeMap<u64, Vec<u8>>);
+    $m!("hashset_u16", HSetU16); $m!("hashmap_u8_u8", HMapU8U8);
+    $m!("ordset32_u32", OrdSet32U32); $m!("ordset8_u8", OrdSet8U8); $m!("ordmap8_u8_u16", OrdMap8U8U16); $m!("ordmap16_u64_bool", OrdMap16U64Bool);
+    $m!("unordset16_u16", UnordSet16U16); $m!("unordmap8_u8_u8", UnordMap8U8U8);
+    $m!("nolenset_u16", NoLenSetU16); $m!("nolenmap_u32_u8", NoLenMapU32U8);
+    $m!("vec8_u16", Vec8U16); $m!("vec64_u8", Vec64U8); $m!("str16", Str16);
+    $m!("bytes32", [u8; 32]);
+    $m!("amount", Amount); $m!("timestamp", Timestamp); $m!("duration", Duration);
+    $m!("account_address", AccountAddress); $m!("contract_address", ContractAddress); $m!("address", Address);
+    $m!("hash", hashes::Hash);
+    $m!("account_balance", AccountBalance); $m!("exchange_rate", ExchangeRate); $m!("exchange_rates", ExchangeRates);
+    $m!("threshold", AccountThreshold);
+    $m!("contract_name", OwnedContractName); $m!("receive_name", OwnedReceiveName); $m!("entrypoint_name", OwnedEntrypointName);
+    $m!("parameter", OwnedParameter);
+    $m!("attribute_tag", AttributeTag); $m!("attribute_value", AttributeValue); $m!("policy", Pol);
+    $m!("chain_metadata", ChainMd);
+    };
+}
+
 fn hand_bytes<T: Serial + Deserial>(name: &str, cls: &'static str, m: &[u8]) {
     let mut o = probe::<T>(m);
     o["k"] = json!("b"); o["t"] = json!(name); o["cls"] = json!(cls); o["in"] = json!(hex(m));
@@ -338,30 +368,7 @@ fn hand_bytes<T: Serial + Deserial>(name: &str, cls: &'static str, m: &[u8]) {
 fn bytes_mode(seed: u64, n: u64) {
     let mut r = Rng::new(seed);
     macro_rules! ty { ($name:expr, $t:ty) => { run_type::<$t>($name, &mut r, n); }; }
-    ty!("u8", u8); ty!("u16", u16); ty!("u32", u32); ty!("u64", u64); ty!("u128", u128);
-    ty!("i8", i8); ty!("i16", i16); ty!("i32", i32); ty!("i64", i64); ty!("i128", i128);
-    ty!("bool", bool);
-    ty!("pair_u8_u16", (u8, u16)); ty!("triple_u64_bool_u32", (u64, bool, u32));
-    ty!("opt_u32", Option<u32>); ty!("opt_opt_u8", Option<Option<u8>>); ty!("opt_vec_u16", Option<Vec<u16>>);
-    ty!("vec_u8", Vec<u8>); ty!("vec_u16", Vec<u16>); ty!("vec_bool", Vec<bool>); ty!("vec_u128", Vec<u128>);
-    ty!("vec_vec_u8", Vec<Vec<u8>>); ty!("vec_pair_u8_u32", Vec<(u8, u32)>); ty!("vec_opt_u8", Vec<Option<u8>>);
-    ty!("string", String); ty!("vec_string", Vec<String>);
-    ty!("set_u8", BTreeSet<u8>); ty!("set_u32", BTreeSet<u32>); ty!("map_u8_u16", BTreeMap<u8, u16>); ty!("map_u64_vec_u8", BTreeMap<u64, Vec<u8>>);
-    ty!("hashset_u16", HSetU16); ty!("hashmap_u8_u8", HMapU8U8);
-    ty!("ordset32_u32", OrdSet32U32); ty!("ordset8_u8", OrdSet8U8); ty!("ordmap8_u8_u16", OrdMap8U8U16); ty!("ordmap16_u64_bool", OrdMap16U64Bool);
-    ty!("unordset16_u16", UnordSet16U16); ty!("unordmap8_u8_u8", UnordMap8U8U8);
-    ty!("nolenset_u16", NoLenSetU16); ty!("nolenmap_u32_u8", NoLenMapU32U8);
-    ty!("vec8_u16", Vec8U16); ty!("vec64_u8", Vec64U8); ty!("str16", Str16);
-    ty!("bytes32", [u8; 32]);
-    ty!("amount", Amount); ty!("timestamp", Timestamp); ty!("duration", Duration);
-    ty!("account_address", AccountAddress); ty!("contract_address", ContractAddress); ty!("address", Address);
-    ty!("hash", hashes::Hash);
-    ty!("account_balance", AccountBalance); ty!("exchange_rate", ExchangeRate); ty!("exchange_rates", ExchangeRates);
-    ty!("threshold", AccountThreshold);
-    ty!("contract_name", OwnedContractName); ty!("receive_name", OwnedReceiveName); ty!("entrypoint_name", OwnedEntrypointName);
-    ty!("parameter", OwnedParameter);
-    ty!("attribute_tag", AttributeTag); ty!("attribute_value", AttributeValue); ty!("policy", Pol);
-    ty!("chain_metadata", ChainMd);
+    all_types!(ty);
     // hand-written hostile inputs
     hand_bytes::<Vec<u8>>("vec_u8", "hostile", &[0xff, 0xff, 0xff, 0xff]);
     hand_bytes::<Vec<u8>>("vec_u8", "hostile", &[0xff, 0xff, 0xff, 0x7f, 1, 2, 3]);
@@ -654,6 +661,7 @@ fn text_mode(seed: u64, n: u64) {
     for _ in 0..n * 4 {
         let a = AccountAddress::gen(&mut r);
         let s = a.to_string();
+        println!("{}", json!({"k":"acc_print","bytes":hex(&a.0),"s":s}));
         let back = guarded(|| AccountAddress::from_str(&s).ok());
         let jr = guarded(|| serde_json::from_str::<AccountAddress>(&serde_json::to_string(&a).unwrap()).ok() == Some(a)).unwrap_or(false);
         let adr = guarded(|| Address::from_str(&s).ok() == Some(Address::Account(a))).unwrap_or(false);
@@ -662,12 +670,18 @@ fn text_mode(seed: u64, n: u64) {
         // mutants: must be rejected, or parse to an address that prints the mutant (canonical text)
         for m in str_mutants(&mut r, &s, &b58) {
             acc_mut += 1;
+            println!("{}", json!({"k":"acc_parse","s":m,"r": match guarded(|| AccountAddress::from_str(&m)) { Err(_) => json!("PANIC"), Ok(Ok(b)) => json!(hex(&b.0)), Ok(Err(_)) => json!(null) }}));
             match guarded(|| AccountAddress::from_str(&m)) {
                 Err(_) => println!("{}", json!({"k":"oracle_fail","t":"account_address_panic","s":m})),
                 Ok(Ok(b)) => { acc_mut_acc += 1; if b.to_string() != m { println!("{}", json!({"k":"oracle_fail","t":"account_address_noncanonical_text","s":m})); } }
                 Ok(Err(_)) => {}
             }
         }
+    }
+    for m in ["", "1", "3XSLuJcXg6xEua6iBPnWacc3iWh93yEDMCqX8FbE3RPSbEnT9P", "3XSLuJcXg6xEua6iBPnWacc3iWh93yEDMCqX8FbE3RPSbEnT9Q", "0XSLuJcXg6xEua6iBPnWacc3iWh93yEDMCqX8FbE3RPSbEnT9P",
+              "3XSLuJcXg6xEua6iBPnWacc3iWh93yEDMCqX8FbE3RPSbEnT9", " 3XSLuJcXg6xEua6iBPnWacc3iWh93yEDMCqX8FbE3RPSbEnT9P", "3XSLuJcXg6xEua6iBPnWacc3iWh93yEDMCqX8FbE3RPSbEnT9P ", "lXSLuJcXg6xEua6iBPnWacc3iWh93yEDMCqX8FbE3RPSbEnT9P",
+              "<1,2>", "11111111111111111111111111111111111111111111111111", "2wkBET2rRgE8pahuaczxKbmv7ciehqsne57F9gtzf1PVdr2VP3"] {
+        println!("{}", json!({"k":"acc_parse","s":m,"r": match guarded(|| AccountAddress::from_str(m)) { Err(_) => json!("PANIC"), Ok(Ok(b)) => json!(hex(&b.0)), Ok(Err(_)) => json!(null) }}));
     }
     println!("{}", json!({"k":"stat","t":"account_address","printed":acc_n,"mutants":acc_mut,"mutants_accepted":acc_mut_acc}));
 }
@@ -712,6 +726,22 @@ fn arith_mode(seed: u64, n: u64) {
     }
 }
 
+/// model-generated encodings: one "<type> <hex>" per stdin line
+fn probe_mode() {
+    use std::io::BufRead;
+    let stdin = std::io::stdin();
+    for line in stdin.lock().lines() {
+        let line = line.unwrap();
+        let mut it = line.split_whitespace();
+        let (name, hx) = match (it.next(), it.next()) { (Some(a), b) => (a.to_string(), b.unwrap_or("").to_string()), _ => continue };
+        let bytes = hlib::unhex(&hx);
+        let mut done = false;
+        macro_rules! pr { ($n:expr, $t:ty) => { if !done && name == $n { hand_bytes::<$t>($n, "model", &bytes); done = true; } }; }
+        all_types!(pr);
+        if !done { println!("{}", json!({"k":"b","t":name,"cls":"model","in":hx,"unknown_type":true})); }
+    }
+}
+
 fn main() {
     quiet_panics();
     let a: Vec<String> = std::env::args().collect();
@@ -722,6 +752,7 @@ fn main() {
         "bytes" => bytes_mode(seed, n),
         "text" => text_mode(seed, n),
         "arith" => arith_mode(seed, n),
+        "probe" => probe_mode(),
         _ => { eprintln!("usage: c16 bytes|text|arith <seed> <n>"); std::process::exit(2) }
     }
 }
